@@ -552,6 +552,7 @@ class Canon:
         # nor drops an effect.  The criterion is purely syntactic, so the canonical form of a function depends on
         # that function's text only (never on an analysis of its callees).
         uses: dict[str, int] = {}
+        self._name_uses = uses
         for n in ast.walk(self.fi.node):
             if isinstance(n, ast.Name) and isinstance(n.ctx, ast.Load):
                 uses[n.id] = uses.get(n.id, 0) + 1
@@ -1092,6 +1093,8 @@ class Canon:
         if isinstance(t, ast.Name):
             if t.id in self.inlinable:
                 self.scope.env[t.id] = val
+                if self._name_uses.get(t.id, 0) == 0 and _has_effectful_call(val):
+                    return [("expr", val)]          # '_ = f()': nothing reads the name, the call is still made
                 return []
             return [("set", self.expr_store(t), val)]
         if isinstance(t, (ast.Tuple, ast.List)):
@@ -2202,7 +2205,21 @@ class Normalizer:
                 if not defs:
                     break
                 self.rounds.append(defs)
+                # a definition that nothing reads keeps its call ('_ = m.create_stog()' is the call statement)
+                uses_: dict = {}
+
+                def cnt_(x):
+                    if isinstance(x, tuple) and x:
+                        if len(x) == 2 and x[0] == "v":
+                            uses_[x] = uses_.get(x, 0) + 1
+                            return
+                        for y in x:
+                            cnt_(y)
+                cnt_(block)
+                _UNUSED_NOW.clear()
+                _UNUSED_NOW.update(v for v in defs if uses_.get(v, 0) <= 1)
                 block = _if_convert(_drop_sets(_renorm_local(deref(block, defs)), set(defs)))
+                _UNUSED_NOW.clear()
                 fused = _fuse_loops(_fuse_comps(block), fresh)
                 if fused != block:
                     block = _index_loops(fused)
@@ -2937,11 +2954,16 @@ def normalize(block: tuple, keep_identity: bool = True) -> tuple:
     return Normalizer(block, keep_identity).block
 
 
+_UNUSED_NOW: set = set()
+
+
 def _drop_sets(block: tuple, vars_: set) -> tuple:
     out = []
     for st in block:
         if isinstance(st, tuple) and st:
             if st[0] == "set" and len(st) == 3 and st[1] in vars_:
+                if _has_effectful_call(st[2]) and st[1] in _UNUSED_NOW:
+                    out.append(("expr", st[2]))          # '_ = f()' : the value is discarded, the call is not
                 continue
             if st[0] == "if" and len(st) == 4:
                 st = mk_if(st[1], _drop_sets(st[2], vars_), _drop_sets(st[3], vars_))
